@@ -28,6 +28,7 @@ func runC09(c *core.Ctx) {
 	h.installSnapshotHandler("C09.5 install-handler")
 	h.staleSnapshotIgnored("C09.6 stale-snapshot-ignored")
 	h.snapshotOrder("C09.7 snapshot-order")
+	h.labelCoherence("C09.1c label-coherence")
 }
 
 func runC12(c *core.Ctx) {
@@ -41,6 +42,9 @@ func runC12(c *core.Ctx) {
 	// the label of a taken snapshot is configs.Committed: it must follow every adopted configuration
 	h.adoptAndRevert("C12.5 adopt-revert")
 	h.configSetters("C12.5b config-setters")
+	// …and must not be edited in place (it shares its node map with the latest configuration)
+	h.oneActionPerEntry("C12.5c one-action")
+	h.applyInOrder("C12.2b applied-position")
 }
 
 func runC10(c *core.Ctx) {
@@ -53,6 +57,7 @@ func runC10(c *core.Ctx) {
 	h.setterPersistThenPublish("C10.1b persist-then-publish", "raft:(*storage).setVotedFor", ">=")
 	c.Clause("C10.2 snapshotSink.done publish order")
 	h.sinkPublishOrder("C10.2 sink-publish")
+	h.snapshotOrder("C10.2b snapshot-order")
 	c.Clause("C10.3 install handler publishes before it resets/compacts")
 	h.installSnapshotHandler("C10.3 install-handler")
 	c.Clause("C10.3b an already published snapshot is never re-created (its data file would be truncated while its meta file is published)")
